@@ -33,12 +33,14 @@ class Gen:
             return '"%s"' % "".join(chr(c) for c in v)
         raise ValueError("no literal for " + k)
 
-    def tag(self, c):
-        tg = c.get("tag") or []
+    def tagtext(self, tg):
         if not tg:
             return ""
         cls = CLS[tg[0]]
         return "[%s%d] " % (cls + " " if cls else "", tg[1])
+
+    def tag(self, c):
+        return self.tagtext(c.get("tag") or [])
 
     def ref(self, t):
         """text usable where a type is expected inside another type"""
@@ -78,7 +80,7 @@ class Gen:
             for i, a in enumerate(t["alts"]):
                 if t["ext"] and i == t["nroot"]:
                     items.append("...")
-                items.append("a%d %s" % (i, self.ref(a)))
+                items.append("a%d %s%s" % (i, self.tagtext((t.get("atags") or [[]] * len(t["alts"]))[i]), self.ref(a)))
             if t["ext"] and len(t["alts"]) == t["nroot"]:
                 items.append("...")
             return "CHOICE { %s }" % ", ".join(items)
@@ -95,7 +97,7 @@ class Gen:
                 items.append(s)
             if t["ext"] and len(t["comps"]) == t["nroot"]:
                 items.append("...")
-            return "%s { %s }" % ("SET" if t.get("set") else "SEQUENCE", ", ".join(items))
+            return "%s%s { %s }" % (self.tagtext(t.get("ttag") or []), "SET" if t.get("set") else "SEQUENCE", ", ".join(items))
         return self.ref(t)
 
     def name_of(self, t):
